@@ -28,9 +28,13 @@ the `OrderedDict` FIFO of waiter futures per key is the sub-list of `waitq` for 
 (a task has at most one queued future); the dict `_waiters` itself (its key order matters for
 `close` and for keys the shuffle label does not name) is `wkeys`.
 
+Trace callbacks: `St.mask` says which of the five hooks the connector awaits really suspend
+(`Hook`, `suspendAt`, `resumeTrace`, label `traceDone`); a task suspended in one keeps its pc and
+records the hook in `Task.tr`.
+
 `Fixes` switches on the repairs of the deviations found (DESIGN §9 F7, F8 and two more found
 while building this model); `Fixes.none` is the code as it is, `Fixes.all` is what the theorems
-in `AioProps/C07.lean` are about.  Not modelled: traces (they add await points), keep-alive
+in `AioProps/C07.lean` are about.  Not modelled: keep-alive
 expiry and the `_cleanup` timers, `force_close`, SSL `abort`/`_cleanup_closed`.
 -/
 namespace Aio.C07
@@ -61,12 +65,23 @@ inductive Pc
   | failed (f : Fail)
 deriving DecidableEq, Repr
 
+/-- the trace hooks `BaseConnector` awaits (`Trace.send_connection_*`); each is an await point when the
+application registered a callback that really suspends -/
+inductive Hook
+  | reuse (first : Bool)   -- on_connection_reuseconn, inside `_get` (`first`: the fast-path `_get`, outside the connect timeout)
+  | qstart                 -- on_connection_queued_start, after the waiter future was queued, before it is awaited
+  | qend                   -- on_connection_queued_end, after the wake-up, before the `finally`
+  | cstart                 -- on_connection_create_start, after the placeholder was added
+  | cend (c : Cid)         -- on_connection_create_end, `_create_connection` has returned connection `c`
+deriving DecidableEq, Repr
+
 structure Task where
   key : Key
   pc : Pc := .idle
   fut : FutSt := .pending
   extCancel : Bool := false       -- Task.cancel() was called by the application
   timedOut : Bool := false        -- the connect-timeout timer fired
+  tr : Option (Hook × Bool) := none  -- suspended inside a trace callback (hook, has the callback returned?)
 deriving DecidableEq, Repr
 
 /-- members of `_acquired`: the placeholder of task `t`, or a real connection -/
@@ -83,10 +98,11 @@ structure Fixes where
   f8 : Bool      -- a woken waiter that leaves by exception passes the wake-up on
   race : Bool    -- a woken waiter that lost the race passes the wake-up on before re-queueing
   close : Bool   -- close() also clears _acquired_per_host; no placeholder on a closed connector
+  trclose : Bool -- a connection orphaned by a cancellation inside a reuseconn / create_end trace callback is closed
 deriving DecidableEq, Repr
 
-def Fixes.none : Fixes := ⟨false, false, false, false⟩
-def Fixes.all : Fixes := ⟨true, true, true, true⟩
+def Fixes.none : Fixes := ⟨false, false, false, false, false⟩
+def Fixes.all : Fixes := ⟨true, true, true, true, true⟩
 
 structure St where
   limit : Nat
@@ -101,6 +117,10 @@ structure St where
   ready : List Tid := []          -- the loop's ready queue (task steps only)
   closed : Bool := false
   perm : List Key := []           -- what `random.shuffle` will do (set by the `shuffle` label)
+  pendingNew : List Cid := []     -- ghost: connections returned by `_create_connection` whose
+                                  -- on_connection_create_end callback has not returned yet
+  mask : Nat := 0                 -- which trace hooks suspend: bit 0 reuseconn, 1 queued_start, 2 queued_end,
+                                  -- 3 create_start, 4 create_end (0 = no traces)
 deriving Repr
 
 inductive Label
@@ -113,6 +133,7 @@ inductive Label
   | lose (c : Cid)
   | close
   | shuffle (p : List Key)
+  | traceDone (t : Tid)             -- the trace callback task `t` is suspended in returns
 deriving Repr
 
 /-! ## small helpers -/
@@ -128,6 +149,10 @@ def connOpen (s : St) (c : Cid) : Bool := match s.conns[c]? with | some x => x.i
 def setTask (s : St) (t : Tid) (x : Task) : St := { s with tasks := s.tasks.set t x }
 def closeConn (s : St) (c : Cid) : St :=
   { s with conns := s.conns.modify c (fun x => { x with isOpen := false }) }
+
+/-- does trace hook number `bit` suspend? -/
+def hooked (s : St) (bit : Nat) : Bool := s.mask.testBit bit
+def suspendAt (s : St) (bit : Nat) (h : Hook) : Option (Hook × Bool) := if hooked s bit then some (h, false) else none
 
 def hostCount (s : St) (k : Key) : Nat := s.perHost.countP (·.1 = k)
 
@@ -154,12 +179,13 @@ def popIdle (s : St) (k : Key) : List Cid → Option Cid × List Cid
       (r.1, c :: r.2)
 
 /-- `_get(key)`: on success the connection is in `_acquired` and the task holds it -/
-def tryGet (s : St) (t : Tid) (x : Task) : St × Bool :=
+def tryGet (s : St) (t : Tid) (x : Task) (first : Bool) : St × Bool :=
   let r := popIdle s x.key s.idle
   let s := { s with idle := r.2 }
   match r.1 with
   | none => (s, false)
-  | some c => (setTask (acquire s x.key (.conn c)) t { x with pc := .holding c }, true)
+  | some c => (setTask (acquire s x.key (.conn c)) t
+                { x with pc := .holding c, tr := suspendAt s 0 (.reuse first) }, true)
 
 /-! ## `_release_waiter` -/
 
@@ -180,7 +206,9 @@ def wakeScan (s : St) (k : Key) : List Tid → Option Tid × List Tid
 
 def wake (s : St) (t : Tid) : St :=
   match s.tasks[t]? with
-  | some x => { setTask s t { x with fut := .woken } with ready := s.ready ++ [t] }
+  | some x =>
+    -- `set_result`: the task's wake-up is scheduled only if the task is awaiting this future
+    { setTask s t { x with fut := .woken } with ready := if x.tr.isNone then s.ready ++ [t] else s.ready }
   | none => s
 
 def releaseWaiterKeys (s : St) : List Key → St
@@ -206,22 +234,22 @@ def releaseAcquired (s : St) (k : Key) (x : Slot) : St :=
 
 /-- queue a fresh future for task `t` (at the front after a lost race) and suspend -/
 def park (s : St) (t : Tid) (x : Task) (front : Bool) : St :=
-  let s := setTask s t { x with pc := .waiting, fut := .pending }
+  let s := setTask s t { x with pc := .waiting, fut := .pending, tr := suspendAt s 1 .qstart }
   { s with waitq := if front then t :: s.waitq else s.waitq ++ [t],
            wkeys := if x.key ∈ s.wkeys then s.wkeys else s.wkeys ++ [x.key] }
 
 /-- add the placeholder and suspend in `_create_connection` -/
 def reserve (fx : Fixes) (s : St) (t : Tid) (x : Task) : St :=
   if fx.close && s.closed then setTask s t { x with pc := .failed .closedErr }
-  else setTask (acquire s x.key (.ph t)) t { x with pc := .creating none }
+  else setTask (acquire s x.key (.ph t)) t { x with pc := .creating none, tr := suspendAt s 3 .cstart }
 
 /-- `connect()` from its first line (`first`) or from the capacity re-check after a wake-up -/
 def enter (fx : Fixes) (s : St) (t : Tid) (x : Task) (first : Bool) : St :=
-  let fast := if first && (!fx.f7 || hasCap s x.key) then tryGet s t x else (s, false)
+  let fast := if first && (!fx.f7 || hasCap s x.key) then tryGet s t x true else (s, false)
   if fast.2 then fast.1 else
   let s := fast.1
   if hasCap s x.key then
-    let again := if first then (s, false) else tryGet s t x
+    let again := if first then (s, false) else tryGet s t x false
     if again.2 then again.1 else reserve fx again.1 t x
   else
     let s := if !first && fx.race then releaseWaiter s else s
@@ -236,20 +264,87 @@ def unpark (s : St) (t : Tid) (k : Key) : St :=
   { s with waitq := q,
            wkeys := if q.all (fun u => keyOf s u ≠ k) then sremove k s.wkeys else s.wkeys }
 
+/-- leaving `_wait_for_available_connection` by exception: the `finally` (+ repair f8) -/
+def failWait (fx : Fixes) (s : St) (t : Tid) (x : Task) : St :=
+  let s := unpark s t x.key
+  let s := setTask s t { x with pc := .failed (failKind x), tr := none }
+  if fx.f8 && x.fut = .woken then releaseWaiter s else s
+
+/-- the wait ended normally: the `finally`, then the capacity re-check -/
+def finishWait (fx : Fixes) (s : St) (t : Tid) (x : Task) : St :=
+  enter fx (unpark s t x.key) t x false
+
+/-- the task runs and its waiter future is done (`await fut` returns or raises) -/
+def afterFut (fx : Fixes) (s : St) (t : Tid) (x : Task) : St :=
+  if mustRaise x then failWait fx s t x
+  else if hooked s 2 then setTask s t { x with tr := some (.qend, false) }
+  else finishWait fx s t x
+
+/-- `_create_connection` returned connection `c` and no trace is pending: closed check, then the swap -/
+def swapOrClosed (s : St) (t : Tid) (x : Task) (c : Cid) : St :=
+  if s.closed then
+    -- proto.close(); raise ClientConnectionError — the placeholder is not released
+    setTask (closeConn s c) t { x with pc := .failed .closedErr }
+  else
+    let s := { s with acquired := sinsert (.conn c) (sremove (.ph t) s.acquired),
+                      perHost := if s.lph = 0 then s.perHost
+                                 else sinsert (x.key, .conn c) (sremove (x.key, .ph t) s.perHost) }
+    setTask s t { x with pc := .holding c }
+
+/-- the task resumes inside `connect` after a trace callback (its record `x` already has `tr := none`) -/
+def resumeTrace (fx : Fixes) (s : St) (t : Tid) (x : Task) (h : Hook) : St :=
+  let raise := x.extCancel || x.timedOut
+  match h with
+  | .reuse _ =>
+    match x.pc with
+    | .holding c =>
+      if raise then
+        -- `except BaseException: self._release_acquired(key, proto); raise` — proto is neither pooled nor closed
+        let s := releaseAcquired (setTask s t { x with pc := .failed (failKind x) }) x.key (.conn c)
+        if fx.trclose then closeConn s c else s
+      else s
+    | _ => s
+  | .qstart =>
+    match x.pc with
+    | .waiting =>
+      if raise then failWait fx s t x
+      else if x.fut = .pending then s                -- `await fut` suspends
+      else afterFut fx s t x
+    | _ => s
+  | .qend =>
+    match x.pc with
+    | .waiting => if raise then failWait fx s t x else finishWait fx s t x
+    | _ => s
+  | .cstart =>
+    match x.pc with
+    | .creating _ =>
+      if raise then releaseAcquired (setTask s t { x with pc := .failed (failKind x) }) x.key (.ph t)
+      else s                                         -- now `_create_connection` runs
+    | _ => s
+  | .cend c =>
+    match x.pc with
+    | .creating _ =>
+      let s := { s with pendingNew := sremove c s.pendingNew }
+      if raise then
+        let s := releaseAcquired (setTask s t { x with pc := .failed (failKind x) }) x.key (.ph t)
+        if fx.trclose then closeConn s c else s
+      else swapOrClosed s t x c
+    | _ => s
+
 /-- one step of task `t` (the event loop calls its wake-up) -/
 def resume (fx : Fixes) (s : St) (t : Tid) (x : Task) : St :=
+  match x.tr with
+  | some (h, r) =>
+    if !r && !(x.extCancel || x.timedOut) then s     -- callback neither returned nor cancelled: nothing to run
+    else resumeTrace fx (setTask s t { x with tr := none }) t { x with tr := none } h
+  | none =>
   match x.pc with
   | .start =>
     if x.extCancel then setTask s t { x with pc := .failed .cancelled }
     else enter fx s t x true
   | .waiting =>
     if x.fut = .pending && !mustRaise x then s   -- not woken: nothing to run
-    else
-      let s := unpark s t x.key
-      if mustRaise x then
-        let s := setTask s t { x with pc := .failed (failKind x) }
-        if fx.f8 && x.fut = .woken then releaseWaiter s else s
-      else enter fx s t x false
+    else afterFut fx s t x
   | .creating res =>
     if x.extCancel || x.timedOut then
       releaseAcquired (setTask s t { x with pc := .failed (failKind x) }) x.key (.ph t)
@@ -258,21 +353,23 @@ def resume (fx : Fixes) (s : St) (t : Tid) (x : Task) : St :=
       | some false => releaseAcquired (setTask s t { x with pc := .failed .oserr }) x.key (.ph t)
       | some true =>
         let c := s.conns.length
-        if s.closed then
-          -- proto.close(); raise ClientConnectionError — the placeholder is not released
-          setTask { s with conns := s.conns ++ [({ key := x.key, isOpen := false } : Conn)] } t
-            { x with pc := .failed .closedErr }
-        else
-          let s := { s with conns := s.conns ++ [({ key := x.key } : Conn)] }
-          let s := { s with acquired := sinsert (.conn c) (sremove (.ph t) s.acquired),
-                            perHost := if s.lph = 0 then s.perHost
-                                       else sinsert (x.key, .conn c) (sremove (x.key, .ph t) s.perHost) }
-          setTask s t { x with pc := .holding c }
+        let s := { s with conns := s.conns ++ [({ key := x.key } : Conn)] }
+        if hooked s 4 then
+          setTask { s with pendingNew := c :: s.pendingNew } t { x with tr := some (.cend c, false) }
+        else swapOrClosed s t x c
   | _ => s
 
 /-- `Task.cancel()` (`byTimer := false`) or the connect timer firing (`byTimer := true`) -/
 def cancelTask (s : St) (t : Tid) (x : Task) (byTimer : Bool) : St :=
   let flag (x : Task) : Task := if byTimer then { x with timedOut := true } else { x with extCancel := true }
+  match x.tr with
+  | some (h, r) =>
+    -- the task awaits the future of a trace callback; the connect timer is not armed on the fast path
+    if byTimer && (x.timedOut || h = .reuse true) then s
+    else if !r && !x.extCancel && !x.timedOut then
+      { setTask s t (flag x) with ready := s.ready ++ [t] }
+    else setTask s t (flag x)
+  | none =>
   match x.pc with
   | .start => if byTimer then s else setTask s t (flag x)
   | .waiting =>
@@ -294,7 +391,8 @@ def cancelWaiters (s : St) : List Tid → St
     match s.tasks[t]? with
     | some x =>
       if x.fut = .pending then
-        cancelWaiters { setTask s t { x with fut := .cancelled } with ready := s.ready ++ [t] } ts
+        cancelWaiters { setTask s t { x with fut := .cancelled } with
+                        ready := if x.tr.isNone then s.ready ++ [t] else s.ready } ts
       else cancelWaiters s ts
     | none => cancelWaiters s ts
 
@@ -330,7 +428,7 @@ def step (fx : Fixes) (s : St) : Label → St
   | .createDone t ok =>
     match s.tasks[t]? with
     | some x =>
-      if x.pc = .creating none && !x.extCancel && !x.timedOut then
+      if x.pc = .creating none && x.tr.isNone && !x.extCancel && !x.timedOut then
         { setTask s t { x with pc := .creating (some ok) } with ready := s.ready ++ [t] }
       else s
     | none => s
@@ -347,6 +445,7 @@ def step (fx : Fixes) (s : St) : Label → St
     | some x =>
       match x.pc with
       | .holding c =>
+        if x.tr.isSome then s else   -- connect() has not returned the Connection yet
         let s := setTask s t { x with pc := .done }
         if s.closed then s else
         let s := releaseAcquired s x.key (.conn c)
@@ -356,11 +455,21 @@ def step (fx : Fixes) (s : St) : Label → St
   | .lose c => if c ∈ s.idle then closeConn s c else s
   | .close => closeAll fx s
   | .shuffle p => { s with perm := p }
+  | .traceDone t =>
+    match s.tasks[t]? with
+    | some x =>
+      match x.tr with
+      | some (h, false) =>
+        if !x.extCancel && !x.timedOut then
+          { setTask s t { x with tr := some (h, true) } with ready := s.ready ++ [t] }
+        else s
+      | _ => s
+    | none => s
 
 def run (fx : Fixes) (s : St) (ls : List Label) : St := ls.foldl (step fx) s
 
 /-- N tasks with the given keys, nothing started -/
-def init (limit lph : Nat) (keys : List Key) : St :=
-  { limit := limit, lph := lph, tasks := keys.map (fun k => ({ key := k } : Task)) }
+def init (limit lph : Nat) (keys : List Key) (mask : Nat := 0) : St :=
+  { limit := limit, lph := lph, tasks := keys.map (fun k => ({ key := k } : Task)), mask := mask }
 
 end Aio.C07
